@@ -1,6 +1,8 @@
 import RomeaProofs.Lemmas.C05Rows
+import RomeaProofs.Lemmas.C05Norm
 import RomeaProofs.Properties.C07
 import Mathlib.Analysis.SpecialFunctions.Trigonometric.Bounds
+import Mathlib.LinearAlgebra.Matrix.Block
 
 /-!
 # C05 — point-to-plane least-squares registration solves its linearised problem
@@ -13,7 +15,9 @@ Eigen's JacobiSVD is a parameter with the contract `IsSVD` of C07.
 Contents: the row residual is the linearised point-to-plane distance (`(ω×s)·n = ω·(s×n)`); `find` returns
 `scatter(Ac·x + Bc)` with `x` the least-squares solution (normal equations, minimality, in geometric terms too);
 a pure translation is recovered exactly; the linearisation residual of an exact rotation is second order in the angle
-(explicit constants), with the error representation of the solution (`_partial`: the conditioning factor is not bounded);
+(explicit constants), with the error representation of the solution (`_partial`) completed by the norm bound
+`‖x − x*‖ ≤ √n·ρ/σ` (`σ` a lower bound of the smallest singular value, which exists for every full-rank problem) and its
+composition with the row residuals: `‖x − x*‖ ≤ √n (θ²/2·M₂ + |θ|³/6·M₁)/σ ≤ C·θ²` for `|θ| ≤ 1` (2D and 3D);
 invariances: index-based = aligned, homogeneous = Cartesian, preconditioned = plain.
 The estimator object is arbitrary throughout (`EWF`: any state reachable from the constructor), and so are the
 unspecified contents of reallocated solver buffers (`jJ`, `jY`).
@@ -443,6 +447,186 @@ theorem rotation_error_second_order_partial {n e : Nat} (J : Matrix (Fin n) (Fin
   rw [Matrix.mulVec_sub, Matrix.mulVec_sub, h]
   rfl
 
+/-- **Rotation: norm bound of the error** (completes `rotation_error_second_order_partial`: the conditioning factor
+    `‖(JᵀJ)⁻¹Jᵀ‖` is bounded by `1/σ`).  If `σ > 0` is a lower bound of the smallest singular value of `J`
+    (`σ²‖v‖² ≤ ‖J v‖²` for every `v`) and every entry of the residual `Y − J x*` of the reference parameters is at most
+    `ρ` in absolute value, the least-squares solution is within `√n·ρ/σ` of `x*` in the Euclidean norm.
+    (`d = x − x*` solves the normal equations with right-hand side `r = Y − J x*`, so `‖J d‖ ≤ ‖r‖ ≤ √n ρ` and
+    `σ‖d‖ ≤ ‖J d‖`.)  `0 ≤ ρ` need not be assumed: it follows from `hres` as soon as there is one row. -/
+theorem rotation_error_norm_bound {n e : Nat} (J : Matrix (Fin n) (Fin e) ℝ) (Y : Fin n → ℝ)
+    (hfull : IsUnit (Jᵀ * J).det) (xstar : Fin e → ℝ) (σ ρ : ℝ) (hσ : 0 < σ)
+    (hmin : ∀ v : Fin e → ℝ, σ ^ 2 * (v ⬝ᵥ v) ≤ (J *ᵥ v) ⬝ᵥ (J *ᵥ v))
+    (hres : ∀ k, |(Y - J *ᵥ xstar) k| ≤ ρ) :
+    √((lsSolution J Y - xstar) ⬝ᵥ (lsSolution J Y - xstar)) ≤ √(n : ℝ) * ρ / σ := by
+  have hne : Jᵀ *ᵥ (J *ᵥ (lsSolution J Y - xstar) - (Y - J *ᵥ xstar)) = 0 := by
+    have h := lsSolution_normal_equations J Y hfull
+    have e1 : J *ᵥ (lsSolution J Y - xstar) - (Y - J *ᵥ xstar) = J *ᵥ lsSolution J Y - Y := by
+      rw [Matrix.mulVec_sub]; abel
+    rw [e1, h]
+  have h1 := ls_energy_le J (Y - J *ᵥ xstar) (lsSolution J Y - xstar) hne
+  have h2 := dot_self_le_of_abs_le (Y - J *ᵥ xstar) ρ hres
+  have h3 := hmin (lsSolution J Y - xstar)
+  have hρ : n = 0 ∨ 0 ≤ ρ := by
+    rcases Nat.eq_zero_or_pos n with h0 | h0
+    · exact Or.inl h0
+    · exact Or.inr ((abs_nonneg _).trans (hres ⟨0, h0⟩))
+  exact sqrt_bound _ σ ρ n hσ (h3.trans (h1.trans h2)) hρ
+
+/-- **A full-rank problem has a positive smallest singular value**: under the full-rank hypothesis of the solver
+    (`JᵀJ` invertible) a `σ > 0` as required by `rotation_error_norm_bound` exists
+    (explicitly `σ = 1/(‖(JᵀJ)⁻¹‖_F² ‖J‖_F² + 1)`). -/
+theorem sigma_min_exists {n e : Nat} (J : Matrix (Fin n) (Fin e) ℝ) (hfull : IsUnit (Jᵀ * J).det) :
+    ∃ σ : ℝ, 0 < σ ∧ ∀ v : Fin e → ℝ, σ ^ 2 * (v ⬝ᵥ v) ≤ (J *ᵥ v) ⬝ᵥ (J *ᵥ v) :=
+  exists_sigma J hfull
+
+/-- the true parameters `x* = (T, θ)` of a 2D rigid motion as a parameter vector -/
+def trueParams2 (T0 T1 θ : ℝ) : Fin (estSize 2) → ℝ := fun c => Vec.get #[T0, T1, θ] c
+
+/-- the true parameters `x* = (T, θ·a)` of a 3D rigid motion (axis `a`, angle `θ`) as a parameter vector -/
+def trueParams3 (T a : Nat → ℝ) (θ : ℝ) : Fin (estSize 3) → ℝ :=
+  fun c => Vec.get #[T 0, T 1, T 2, θ * a 0, θ * a 1, θ * a 2] c
+
+private theorem residual_entry_2d (n : Nat) (src tgt nrm : Array (Pt ℝ)) (T0 T1 θ : ℝ) (k : Fin n) :
+    (Ylin 2 n src tgt nrm - Jlin 2 n src nrm *ᵥ trueParams2 T0 T1 θ) k =
+      -(sumTo 3 (fun c => Vec.get (rowOf 2 (src.getD k #[]) (nrm.getD k #[])) c * Vec.get #[T0, T1, θ] c)
+        - rhsOf 2 (src.getD k #[]) (tgt.getD k #[]) (nrm.getD k #[])) := by
+  rw [sumTo_eq_sum_fin, neg_sub]
+  rfl
+
+private theorem residual_entry_3d (n : Nat) (src tgt nrm : Array (Pt ℝ)) (T a : Nat → ℝ) (θ : ℝ) (k : Fin n) :
+    (Ylin 3 n src tgt nrm - Jlin 3 n src nrm *ᵥ trueParams3 T a θ) k =
+      -(sumTo 6 (fun c => Vec.get (rowOf 3 (src.getD k #[]) (nrm.getD k #[])) c *
+            Vec.get #[T 0, T 1, T 2, θ * a 0, θ * a 1, θ * a 2] c)
+        - rhsOf 3 (src.getD k #[]) (tgt.getD k #[]) (nrm.getD k #[])) := by
+  rw [sumTo_eq_sum_fin, neg_sub]
+  rfl
+
+private theorem two_term_le (θ A B M₂ M₁ : ℝ) (hA : A ≤ M₂) (hB : B ≤ M₁) :
+    θ ^ 2 / 2 * A + |θ| ^ 3 / 6 * B ≤ θ ^ 2 / 2 * M₂ + |θ| ^ 3 / 6 * M₁ :=
+  add_le_add (mul_le_mul_of_nonneg_left hA (by positivity)) (mul_le_mul_of_nonneg_left hB (by positivity))
+
+/-- **Rotation, 2D: the error of the returned parameters is second order in the angle** (completes
+    `rotation_error_second_order_partial` for the estimator's own 2D problem).  Targets that are the EXACT rigid images
+    `tₖ = R(θ)sₖ + T` of the sources (the hypotheses of `rotation_residual_2d`, for every row), full rank, `σ > 0` a lower
+    bound of the smallest singular value of the design matrix, `M₂ ≥ |sₖ·nₖ|` and `M₁ ≥ |sₖ × nₖ|` for every row:
+    the least-squares solution `x` of the linearised problem satisfies
+    `‖x − (T, θ)‖ ≤ √n (θ²/2·M₂ + |θ|³/6·M₁)/σ`.  (The normals need not be unit vectors; for unit normals
+    `M₂ = M₁ = max‖sₖ‖` works.) -/
+theorem rotation_error_second_order_2d (n : Nat) (src tgt nrm : Array (Pt ℝ)) (θ T0 T1 σ M₂ M₁ : ℝ)
+    (hfull : IsUnit ((Jlin 2 n src nrm)ᵀ * Jlin 2 n src nrm).det) (hσ : 0 < σ)
+    (hmin : ∀ v : Fin (estSize 2) → ℝ, σ ^ 2 * (v ⬝ᵥ v) ≤ (Jlin 2 n src nrm *ᵥ v) ⬝ᵥ (Jlin 2 n src nrm *ᵥ v))
+    (ht0 : ∀ k < n, Vec.get (tgt.getD k #[]) 0 =
+      Real.cos θ * Vec.get (src.getD k #[]) 0 - Real.sin θ * Vec.get (src.getD k #[]) 1 + T0)
+    (ht1 : ∀ k < n, Vec.get (tgt.getD k #[]) 1 =
+      Real.sin θ * Vec.get (src.getD k #[]) 0 + Real.cos θ * Vec.get (src.getD k #[]) 1 + T1)
+    (hM2 : ∀ k < n, |Vec.get (src.getD k #[]) 0 * Vec.get (nrm.getD k #[]) 0 +
+      Vec.get (src.getD k #[]) 1 * Vec.get (nrm.getD k #[]) 1| ≤ M₂)
+    (hM1 : ∀ k < n, |Vec.get (src.getD k #[]) 0 * Vec.get (nrm.getD k #[]) 1 -
+      Vec.get (src.getD k #[]) 1 * Vec.get (nrm.getD k #[]) 0| ≤ M₁) :
+    let x := lsSolution (Jlin 2 n src nrm) (Ylin 2 n src tgt nrm)
+    √((x - trueParams2 T0 T1 θ) ⬝ᵥ (x - trueParams2 T0 T1 θ)) ≤
+      √(n : ℝ) * (θ ^ 2 / 2 * M₂ + |θ| ^ 3 / 6 * M₁) / σ := by
+  intro x
+  apply rotation_error_norm_bound _ _ hfull _ σ _ hσ hmin
+  intro k
+  rw [residual_entry_2d, abs_neg]
+  exact (rotation_residual_2d _ _ _ θ T0 T1 (ht0 k k.isLt) (ht1 k k.isLt)).2.trans
+    (two_term_le θ _ _ M₂ M₁ (hM2 k k.isLt) (hM1 k k.isLt))
+
+/-- **Rotation, 3D: the error of the returned parameters is second order in the angle** (completes
+    `rotation_error_second_order_partial` for the estimator's own 3D problem).  Targets that are the EXACT images
+    `tₖ = sₖ + sin θ (a × sₖ) + (1 − cos θ) a × (a × sₖ) + T` (Rodrigues' rotation by `θ` about the axis `a`; the
+    hypothesis of `rotation_residual_3d`, for every row), full rank, `σ > 0` a lower bound of the smallest singular
+    value of the design matrix, `M₂ ≥ |(a × (a × sₖ))·nₖ|` and `M₁ ≥ |(a × sₖ)·nₖ|` for every row: the least-squares
+    solution `x` of the linearised problem satisfies `‖x − (T, θ·a)‖ ≤ √n (θ²/2·M₂ + |θ|³/6·M₁)/σ`.
+    (Neither `‖a‖ = 1` nor `‖nₖ‖ = 1` is needed for the inequality; for unit `a`, `nₖ`: `M₂ = M₁ = max‖sₖ‖` works.) -/
+theorem rotation_error_second_order_3d (n : Nat) (src tgt nrm : Array (Pt ℝ)) (θ : ℝ) (a T : Nat → ℝ) (σ M₂ M₁ : ℝ)
+    (hfull : IsUnit ((Jlin 3 n src nrm)ᵀ * Jlin 3 n src nrm).det) (hσ : 0 < σ)
+    (hmin : ∀ v : Fin (estSize 3) → ℝ, σ ^ 2 * (v ⬝ᵥ v) ≤ (Jlin 3 n src nrm *ᵥ v) ⬝ᵥ (Jlin 3 n src nrm *ᵥ v))
+    (ht : ∀ k < n, ∀ i < 3, Vec.get (tgt.getD k #[]) i =
+      Vec.get (src.getD k #[]) i + Real.sin θ * cross3 a (Vec.get (src.getD k #[])) i
+        + (1 - Real.cos θ) * cross3 a (cross3 a (Vec.get (src.getD k #[]))) i + T i)
+    (hM2 : ∀ k < n, |dot3 (cross3 a (cross3 a (Vec.get (src.getD k #[])))) (Vec.get (nrm.getD k #[]))| ≤ M₂)
+    (hM1 : ∀ k < n, |dot3 (cross3 a (Vec.get (src.getD k #[]))) (Vec.get (nrm.getD k #[]))| ≤ M₁) :
+    let x := lsSolution (Jlin 3 n src nrm) (Ylin 3 n src tgt nrm)
+    √((x - trueParams3 T a θ) ⬝ᵥ (x - trueParams3 T a θ)) ≤
+      √(n : ℝ) * (θ ^ 2 / 2 * M₂ + |θ| ^ 3 / 6 * M₁) / σ := by
+  intro x
+  apply rotation_error_norm_bound _ _ hfull _ σ _ hσ hmin
+  intro k
+  rw [residual_entry_3d, abs_neg]
+  exact (rotation_residual_3d _ _ _ θ a T (ht k k.isLt)).2.trans
+    (two_term_le θ _ _ M₂ M₁ (hM2 k k.isLt) (hM1 k k.isLt))
+
+/-- for `|θ| ≤ 1` the explicit bound is at most `C·θ²` with `C = √n (M₂/2 + M₁/6)/σ` -/
+private theorem bound_le_C_theta_sq (n : Nat) (θ σ M₂ M₁ : ℝ) (hσ : 0 < σ) (hθ : |θ| ≤ 1) (hM1 : 0 ≤ M₁) :
+    √(n : ℝ) * (θ ^ 2 / 2 * M₂ + |θ| ^ 3 / 6 * M₁) / σ ≤ √(n : ℝ) * (M₂ / 2 + M₁ / 6) / σ * θ ^ 2 := by
+  have h3 : |θ| ^ 3 ≤ θ ^ 2 := by
+    have h0 := abs_nonneg θ
+    have : |θ| ^ 3 = |θ| ^ 2 * |θ| := by ring
+    rw [this, ← sq_abs θ]
+    exact mul_le_of_le_one_right (sq_nonneg _) hθ
+  have hs := Real.sqrt_nonneg (n : ℝ)
+  have key : θ ^ 2 / 2 * M₂ + |θ| ^ 3 / 6 * M₁ ≤ (M₂ / 2 + M₁ / 6) * θ ^ 2 := by nlinarith
+  calc √(n : ℝ) * (θ ^ 2 / 2 * M₂ + |θ| ^ 3 / 6 * M₁) / σ
+      ≤ √(n : ℝ) * ((M₂ / 2 + M₁ / 6) * θ ^ 2) / σ :=
+        div_le_div_of_nonneg_right (mul_le_mul_of_nonneg_left key hs) hσ.le
+    _ = √(n : ℝ) * (M₂ / 2 + M₁ / 6) / σ * θ ^ 2 := by ring
+
+/-- `M₁` bounds an absolute value as soon as there is a row; with no row the bound is `0` anyway -/
+private theorem C_theta_sq_of_bound (n : Nat) (D θ σ M₂ M₁ : ℝ) (hσ : 0 < σ) (hθ : |θ| ≤ 1) (hM1 : n = 0 ∨ 0 ≤ M₁)
+    (h : D ≤ √(n : ℝ) * (θ ^ 2 / 2 * M₂ + |θ| ^ 3 / 6 * M₁) / σ) :
+    D ≤ √(n : ℝ) * (M₂ / 2 + M₁ / 6) / σ * θ ^ 2 := by
+  rcases hM1 with rfl | hM1
+  · simpa using h
+  · exact h.trans (bound_le_C_theta_sq n θ σ M₂ M₁ hσ hθ hM1)
+
+/-- **2D, `‖x − x*‖ ≤ C·θ²`** for `|θ| ≤ 1`, with the explicit constant `C = √n (M₂/2 + M₁/6)/σ`
+    (same hypotheses as `rotation_error_second_order_2d`) -/
+theorem rotation_error_second_order_2d_le_C_theta_sq (n : Nat) (src tgt nrm : Array (Pt ℝ)) (θ T0 T1 σ M₂ M₁ : ℝ)
+    (hfull : IsUnit ((Jlin 2 n src nrm)ᵀ * Jlin 2 n src nrm).det) (hσ : 0 < σ)
+    (hmin : ∀ v : Fin (estSize 2) → ℝ, σ ^ 2 * (v ⬝ᵥ v) ≤ (Jlin 2 n src nrm *ᵥ v) ⬝ᵥ (Jlin 2 n src nrm *ᵥ v))
+    (ht0 : ∀ k < n, Vec.get (tgt.getD k #[]) 0 =
+      Real.cos θ * Vec.get (src.getD k #[]) 0 - Real.sin θ * Vec.get (src.getD k #[]) 1 + T0)
+    (ht1 : ∀ k < n, Vec.get (tgt.getD k #[]) 1 =
+      Real.sin θ * Vec.get (src.getD k #[]) 0 + Real.cos θ * Vec.get (src.getD k #[]) 1 + T1)
+    (hM2 : ∀ k < n, |Vec.get (src.getD k #[]) 0 * Vec.get (nrm.getD k #[]) 0 +
+      Vec.get (src.getD k #[]) 1 * Vec.get (nrm.getD k #[]) 1| ≤ M₂)
+    (hM1 : ∀ k < n, |Vec.get (src.getD k #[]) 0 * Vec.get (nrm.getD k #[]) 1 -
+      Vec.get (src.getD k #[]) 1 * Vec.get (nrm.getD k #[]) 0| ≤ M₁)
+    (hθ : |θ| ≤ 1) :
+    let x := lsSolution (Jlin 2 n src nrm) (Ylin 2 n src tgt nrm)
+    √((x - trueParams2 T0 T1 θ) ⬝ᵥ (x - trueParams2 T0 T1 θ)) ≤ √(n : ℝ) * (M₂ / 2 + M₁ / 6) / σ * θ ^ 2 := by
+  intro x
+  have hM : n = 0 ∨ 0 ≤ M₁ := by
+    rcases Nat.eq_zero_or_pos n with h0 | h0
+    · exact Or.inl h0
+    · exact Or.inr ((abs_nonneg _).trans (hM1 0 h0))
+  exact C_theta_sq_of_bound n _ θ σ M₂ M₁ hσ hθ hM
+    (rotation_error_second_order_2d n src tgt nrm θ T0 T1 σ M₂ M₁ hfull hσ hmin ht0 ht1 hM2 hM1)
+
+/-- **3D, `‖x − x*‖ ≤ C·θ²`** for `|θ| ≤ 1`, with the explicit constant `C = √n (M₂/2 + M₁/6)/σ`
+    (same hypotheses as `rotation_error_second_order_3d`) -/
+theorem rotation_error_second_order_3d_le_C_theta_sq (n : Nat) (src tgt nrm : Array (Pt ℝ)) (θ : ℝ) (a T : Nat → ℝ)
+    (σ M₂ M₁ : ℝ)
+    (hfull : IsUnit ((Jlin 3 n src nrm)ᵀ * Jlin 3 n src nrm).det) (hσ : 0 < σ)
+    (hmin : ∀ v : Fin (estSize 3) → ℝ, σ ^ 2 * (v ⬝ᵥ v) ≤ (Jlin 3 n src nrm *ᵥ v) ⬝ᵥ (Jlin 3 n src nrm *ᵥ v))
+    (ht : ∀ k < n, ∀ i < 3, Vec.get (tgt.getD k #[]) i =
+      Vec.get (src.getD k #[]) i + Real.sin θ * cross3 a (Vec.get (src.getD k #[])) i
+        + (1 - Real.cos θ) * cross3 a (cross3 a (Vec.get (src.getD k #[]))) i + T i)
+    (hM2 : ∀ k < n, |dot3 (cross3 a (cross3 a (Vec.get (src.getD k #[])))) (Vec.get (nrm.getD k #[]))| ≤ M₂)
+    (hM1 : ∀ k < n, |dot3 (cross3 a (Vec.get (src.getD k #[]))) (Vec.get (nrm.getD k #[]))| ≤ M₁)
+    (hθ : |θ| ≤ 1) :
+    let x := lsSolution (Jlin 3 n src nrm) (Ylin 3 n src tgt nrm)
+    √((x - trueParams3 T a θ) ⬝ᵥ (x - trueParams3 T a θ)) ≤ √(n : ℝ) * (M₂ / 2 + M₁ / 6) / σ * θ ^ 2 := by
+  intro x
+  have hM : n = 0 ∨ 0 ≤ M₁ := by
+    rcases Nat.eq_zero_or_pos n with h0 | h0
+    · exact Or.inl h0
+    · exact Or.inr ((abs_nonneg _).trans (hM1 0 h0))
+  exact C_theta_sq_of_bound n _ θ σ M₂ M₁ hσ hθ hM
+    (rotation_error_second_order_3d n src tgt nrm θ a T σ M₂ M₁ hfull hσ hmin ht hM2 hM1)
+
 /-! ## Preconditioning -/
 
 private theorem get_map_mul (p : Pt ℝ) (sc : ℝ) (c : Nat) : Vec.get (p.map fun v => v * sc) c = Vec.get p c * sc := by
@@ -625,5 +809,147 @@ example : EWF 2 (init 2 : Estimator ℝ) ∧
 
 /-- the trigonometric bound at a non-trivial angle -/
 example : |(1 / 10 : ℝ) - Real.sin (1 / 10)| ≤ |(1 / 10 : ℝ)| ^ 3 / 6 := (trig_bounds (1 / 10)).2.2
+
+/-! ### Non-vacuity of the rotation error bounds -/
+
+/-- the design matrix of the 2D example problem -/
+private noncomputable def exM2 : Matrix (Fin 4) (Fin 3) ℝ := !![1, 0, 0; 0, 1, 0; 0, 1, 1; 0, -1, 1]
+
+private theorem exJ2 : Jlin 2 4 exSrc exNrm = exM2 := by
+  have h : ∀ (i : Fin 4) (j : Fin 3), Jlin 2 4 exSrc exNrm i j = exM2 i j := by
+    intro i j
+    fin_cases i <;> fin_cases j <;> simp [Jlin, rowA, rowOf, exSrc, exNrm, Vec.get, exM2]
+  funext i j
+  exact h i j
+
+private theorem exM2_full : IsUnit (exM2ᵀ * exM2).det := by
+  have key : exM2ᵀ * exM2 = Matrix.diagonal (![1, 3, 2] : Fin 3 → ℝ) := by
+    ext i j
+    fin_cases i <;> fin_cases j <;> norm_num [exM2, Matrix.mul_apply, Fin.sum_univ_succ, Matrix.diagonal_apply]
+  rw [key, Matrix.det_diagonal]
+  norm_num [Fin.prod_univ_succ]
+
+private theorem exM2_mulVec (v : Fin 3 → ℝ) : exM2 *ᵥ v = ![v 0, v 1, v 1 + v 2, -v 1 + v 2] := by
+  funext i
+  fin_cases i <;> simp [exM2, Matrix.mulVec, dotProduct, Fin.sum_univ_succ]
+
+private theorem exM2_sigma (v : Fin 3 → ℝ) : (1 : ℝ) ^ 2 * (v ⬝ᵥ v) ≤ (exM2 *ᵥ v) ⬝ᵥ (exM2 *ᵥ v) := by
+  rw [exM2_mulVec]
+  simp only [dotProduct, Fin.sum_univ_succ, Fin.sum_univ_zero]
+  simp
+  nlinarith [sq_nonneg (v 0), sq_nonneg (v 1), sq_nonneg (v 2)]
+
+private theorem exJ2_full : IsUnit ((Jlin 2 4 exSrc exNrm)ᵀ * Jlin 2 4 exSrc exNrm).det := by
+  rw [exJ2]; exact exM2_full
+
+private theorem exJ2_sigma (v : Fin (estSize 2) → ℝ) :
+    (1 : ℝ) ^ 2 * (v ⬝ᵥ v) ≤ (Jlin 2 4 exSrc exNrm *ᵥ v) ⬝ᵥ (Jlin 2 4 exSrc exNrm *ᵥ v) := by
+  rw [exJ2]; exact exM2_sigma v
+
+/-- `rotation_error_norm_bound` / `sigma_min_exists`: the 2D example design matrix (normal matrix `diag(1,3,2)`, so
+    `σ = 1`), right-hand side `(1,2,3,4)`, reference parameters `(1,2,0)` with residual `(0,0,1,6)`, `ρ = 6` -/
+example : IsUnit ((Jlin 2 4 exSrc exNrm)ᵀ * Jlin 2 4 exSrc exNrm).det ∧ (0 : ℝ) < 1 ∧
+    (∀ v : Fin (estSize 2) → ℝ, (1 : ℝ) ^ 2 * (v ⬝ᵥ v) ≤ (Jlin 2 4 exSrc exNrm *ᵥ v) ⬝ᵥ (Jlin 2 4 exSrc exNrm *ᵥ v)) ∧
+    (∀ k, |((![1, 2, 3, 4] : Fin 4 → ℝ) - Jlin 2 4 exSrc exNrm *ᵥ (![1, 2, 0] : Fin 3 → ℝ)) k| ≤ 6) := by
+  refine ⟨exJ2_full, one_pos, exJ2_sigma, ?_⟩
+  intro k
+  have h : Jlin 2 4 exSrc exNrm *ᵥ (![1, 2, 0] : Fin 3 → ℝ) = ![1, 2, 2 + 0, -2 + 0] := by
+    rw [exJ2]; exact exM2_mulVec _
+  rw [h]
+  fin_cases k <;> norm_num
+
+/-- the sources `exSrc` rotated by `θ` about the origin and translated by `(1/2, 1/4)` -/
+noncomputable def exTgtRot (θ : ℝ) : Array (Pt ℝ) :=
+  #[#[1/2, 1/4], #[1/2, 1/4], #[Real.cos θ + 1/2, Real.sin θ + 1/4], #[-Real.cos θ + 1/2, -Real.sin θ + 1/4]]
+
+/-- `rotation_error_second_order_2d` (and `…_le_C_theta_sq`): the 2D example problem with targets rotated by
+    `θ = 1/10` and translated by `(1/2, 1/4)`, `σ = 1`, `M₂ = M₁ = 1` -/
+example : IsUnit ((Jlin 2 4 exSrc exNrm)ᵀ * Jlin 2 4 exSrc exNrm).det ∧ (0 : ℝ) < 1 ∧
+    (∀ v : Fin (estSize 2) → ℝ, (1 : ℝ) ^ 2 * (v ⬝ᵥ v) ≤ (Jlin 2 4 exSrc exNrm *ᵥ v) ⬝ᵥ (Jlin 2 4 exSrc exNrm *ᵥ v)) ∧
+    (∀ k < 4, Vec.get ((exTgtRot (1/10)).getD k #[]) 0 =
+      Real.cos (1/10) * Vec.get (exSrc.getD k #[]) 0 - Real.sin (1/10) * Vec.get (exSrc.getD k #[]) 1 + 1/2) ∧
+    (∀ k < 4, Vec.get ((exTgtRot (1/10)).getD k #[]) 1 =
+      Real.sin (1/10) * Vec.get (exSrc.getD k #[]) 0 + Real.cos (1/10) * Vec.get (exSrc.getD k #[]) 1 + 1/4) ∧
+    (∀ k < 4, |Vec.get (exSrc.getD k #[]) 0 * Vec.get (exNrm.getD k #[]) 0 +
+      Vec.get (exSrc.getD k #[]) 1 * Vec.get (exNrm.getD k #[]) 1| ≤ 1) ∧
+    (∀ k < 4, |Vec.get (exSrc.getD k #[]) 0 * Vec.get (exNrm.getD k #[]) 1 -
+      Vec.get (exSrc.getD k #[]) 1 * Vec.get (exNrm.getD k #[]) 0| ≤ 1) ∧ |(1 / 10 : ℝ)| ≤ 1 := by
+  refine ⟨exJ2_full, one_pos, exJ2_sigma, ?_, ?_, ?_, ?_, ?_⟩
+  · intro k hk
+    interval_cases k <;> simp [exSrc, exTgtRot, Vec.get]
+  · intro k hk
+    interval_cases k <;> simp [exSrc, exTgtRot, Vec.get]
+  · intro k hk
+    interval_cases k <;> norm_num [exSrc, exNrm, Vec.get]
+  · intro k hk
+    interval_cases k <;> norm_num [exSrc, exNrm, Vec.get]
+  · rw [abs_of_pos] <;> norm_num
+
+/-- a 3D problem with six correspondences: three at the origin with normals `e₁, e₂, e₃`, and
+    `(s, n) = (e₂, e₃), (e₃, e₁), (e₁, e₂)` whose rows are `[e₃, e₁], [e₁, e₂], [e₂, e₃]` -/
+noncomputable def exSrc3 : Array (Pt ℝ) := #[#[0, 0, 0], #[0, 0, 0], #[0, 0, 0], #[0, 1, 0], #[0, 0, 1], #[1, 0, 0]]
+noncomputable def exNrm3 : Array (Pt ℝ) := #[#[1, 0, 0], #[0, 1, 0], #[0, 0, 1], #[0, 0, 1], #[1, 0, 0], #[0, 1, 0]]
+/-- rotation axis `e₃` and translation `(1/2, 1/4, 1/8)` -/
+noncomputable def exAxis : Nat → ℝ := fun i => if i = 2 then 1 else 0
+noncomputable def exT3 : Nat → ℝ := fun i => if i = 0 then 1/2 else if i = 1 then 1/4 else 1/8
+/-- the sources `exSrc3` rotated by `θ` about the axis `e₃` and translated by `(1/2, 1/4, 1/8)` -/
+noncomputable def exTgt3 (θ : ℝ) : Array (Pt ℝ) :=
+  #[#[1/2, 1/4, 1/8], #[1/2, 1/4, 1/8], #[1/2, 1/4, 1/8], #[-Real.sin θ + 1/2, Real.cos θ + 1/4, 1/8],
+    #[1/2, 1/4, 1 + 1/8], #[Real.cos θ + 1/2, Real.sin θ + 1/4, 1/8]]
+
+private noncomputable def exM3 : Matrix (Fin 6) (Fin 6) ℝ :=
+  !![1, 0, 0, 0, 0, 0; 0, 1, 0, 0, 0, 0; 0, 0, 1, 0, 0, 0; 0, 0, 1, 1, 0, 0; 1, 0, 0, 0, 1, 0; 0, 1, 0, 0, 0, 1]
+
+private theorem exJ3 : Jlin 3 6 exSrc3 exNrm3 = exM3 := by
+  have h : ∀ (i : Fin 6) (j : Fin 6), Jlin 3 6 exSrc3 exNrm3 i j = exM3 i j := by
+    intro i j
+    fin_cases i <;> fin_cases j <;> simp [Jlin, rowA, rowOf, exSrc3, exNrm3, Vec.get, exM3]
+  funext i j
+  exact h i j
+
+private theorem exM3_full : IsUnit (exM3ᵀ * exM3).det := by
+  have htri : exM3.IsLowerTriangular := by
+    intro i j hij
+    have hij' : i < j := hij
+    fin_cases i <;> fin_cases j <;> first | (exfalso; revert hij'; decide) | simp [exM3]
+  have hdet : exM3.det = 1 := by
+    rw [Matrix.det_of_isLowerTriangular exM3 htri]
+    simp [Fin.prod_univ_succ, exM3]
+  rw [Matrix.det_mul, Matrix.det_transpose, hdet]
+  simp
+
+private theorem exM3_mulVec (v : Fin 6 → ℝ) : exM3 *ᵥ v = ![v 0, v 1, v 2, v 2 + v 3, v 0 + v 4, v 1 + v 5] := by
+  funext i
+  fin_cases i <;> simp [exM3, Matrix.mulVec, dotProduct, Fin.sum_univ_succ]
+
+private theorem exM3_sigma (v : Fin 6 → ℝ) : (1 / 2 : ℝ) ^ 2 * (v ⬝ᵥ v) ≤ (exM3 *ᵥ v) ⬝ᵥ (exM3 *ᵥ v) := by
+  rw [exM3_mulVec]
+  simp only [dotProduct, Fin.sum_univ_succ, Fin.sum_univ_zero]
+  simp
+  nlinarith [sq_nonneg (v 3 + 4 / 3 * v 2), sq_nonneg (v 4 + 4 / 3 * v 0), sq_nonneg (v 5 + 4 / 3 * v 1),
+    sq_nonneg (v 0), sq_nonneg (v 1), sq_nonneg (v 2)]
+
+/-- `rotation_error_second_order_3d` (and `…_le_C_theta_sq`, `sigma_min_exists`): the 3D example problem with targets
+    rotated by `θ = 1/10` about `e₃` and translated by `(1/2, 1/4, 1/8)`, `σ = 1/2`, `M₂ = M₁ = 1` -/
+example : IsUnit ((Jlin 3 6 exSrc3 exNrm3)ᵀ * Jlin 3 6 exSrc3 exNrm3).det ∧ (0 : ℝ) < 1 / 2 ∧
+    (∀ v : Fin (estSize 3) → ℝ,
+      (1 / 2 : ℝ) ^ 2 * (v ⬝ᵥ v) ≤ (Jlin 3 6 exSrc3 exNrm3 *ᵥ v) ⬝ᵥ (Jlin 3 6 exSrc3 exNrm3 *ᵥ v)) ∧
+    (∀ k < 6, ∀ i < 3, Vec.get ((exTgt3 (1/10)).getD k #[]) i =
+      Vec.get (exSrc3.getD k #[]) i + Real.sin (1/10) * cross3 exAxis (Vec.get (exSrc3.getD k #[])) i
+        + (1 - Real.cos (1/10)) * cross3 exAxis (cross3 exAxis (Vec.get (exSrc3.getD k #[]))) i + exT3 i) ∧
+    (∀ k < 6, |dot3 (cross3 exAxis (cross3 exAxis (Vec.get (exSrc3.getD k #[])))) (Vec.get (exNrm3.getD k #[]))| ≤ 1) ∧
+    (∀ k < 6, |dot3 (cross3 exAxis (Vec.get (exSrc3.getD k #[]))) (Vec.get (exNrm3.getD k #[]))| ≤ 1) ∧
+    |(1 / 10 : ℝ)| ≤ 1 := by
+  refine ⟨?_, by norm_num, ?_, ?_, ?_, ?_, ?_⟩
+  · rw [exJ3]; exact exM3_full
+  · intro v
+    rw [exJ3]; exact exM3_sigma v
+  · intro k hk i hi
+    interval_cases k <;> interval_cases i <;> simp [exSrc3, exTgt3, exAxis, exT3, cross3, Vec.get]
+  · intro k hk
+    interval_cases k <;> norm_num [exSrc3, exNrm3, exAxis, cross3, dot3, Vec.get]
+  · intro k hk
+    interval_cases k <;> norm_num [exSrc3, exNrm3, exAxis, cross3, dot3, Vec.get]
+  · rw [abs_of_pos] <;> norm_num
 
 end Romea.C05
